@@ -268,6 +268,7 @@ fn main() {
         let t_all = t0.elapsed();
         let mut bad = 0;
         let mut seen_sig: std::collections::BTreeSet<String> = Default::default();
+        let mut seen_viol: std::collections::BTreeSet<String> = Default::default();
         for p in &ev.points {
             sum.branch(&format!("crash-in-{}", p.inflight));
             let canon = format!("{name}/{}", p.image);
@@ -283,7 +284,9 @@ fn main() {
                 let predicted = preds.is_none() || model_agrees[p.image];
                 if known.contains(&p.verdict.signature) && predicted {
                     sum.known_finding(&p.verdict.signature, &p.verdict.what, case);
-                } else if first {
+                } else if seen_viol.insert(p.verdict.signature.clone()) {
+                    // (de-duplicated among REPORTED violations only: an earlier instance of the class that was a
+                    // model-predicted known finding must not hide a later one the model does not predict)
                     sum.oracle_violation(&p.verdict.signature, &p.verdict.what, case);
                 }
             } else {
